@@ -1549,6 +1549,25 @@ func (c *Core) handleRequest(ctx context.Context, req *logical.Request) (retResp
 			}
 			resp.Secret.LeaseID = leaseID
 
+			// The token may have been revoked, or have taken its last use in
+			// a concurrent request, after this request was authorised and
+			// before the lease was indexed under it; that revocation then
+			// never saw this lease. Unless this request itself holds the final
+			// use (its deferred revocation runs after this point and finds the
+			// lease), make sure the token is still live now that the lease is
+			// indexed, and otherwise revoke the lease instead of returning it.
+			if te != nil && te.Type != logical.TokenTypeBatch && te.NumUses != tokenRevocationPending {
+				cur, lookupErr := c.tokenStore.Lookup(ctx, te.ID)
+				if lookupErr != nil || cur == nil {
+					revokeCtx := namespace.ContextWithNamespace(c.activeContext.Load(), ns)
+					if revokeErr := c.expiration.Revoke(revokeCtx, leaseID); revokeErr != nil {
+						c.logger.Error("failed to revoke lease registered under a revoked token", "request_path", req.Path, "error", revokeErr)
+					}
+					retErr = multierror.Append(retErr, logical.ErrPermissionDenied)
+					return nil, auth, retErr
+				}
+			}
+
 			// Count the lease creation
 			ttl_label := metricsutil.TTLBucket(resp.Secret.TTL)
 			mountPointWithoutNs := ns.TrimmedPath(req.MountPoint)
